@@ -411,14 +411,14 @@ func (st *State) freshVal(t types.Type, hint string) *Val {
 func (st *State) typeFacts(v *Val) {
 	switch v.S {
 	case SBytes:
-		st.assume("(>= (bytes_len " + v.Tm + ") 0)")
+		st.assume("(and (>= (bytes_len " + v.Tm + ") 0) (<= (bytes_len " + v.Tm + ") 9223372036854775807))")
 		if a, ok := v.T.Underlying().(*types.Array); ok {
 			st.assume(eq("(bytes_len "+v.Tm+")", fmt.Sprint(a.Len())))
 		}
 	case SStr:
-		st.assume("(>= (str_len " + v.Tm + ") 0)")
+		st.assume("(and (>= (str_len " + v.Tm + ") 0) (<= (str_len " + v.Tm + ") 9223372036854775807))")
 	case SSlice:
-		st.assume("(and (>= (s_off " + v.Tm + ") 0) (>= (s_len " + v.Tm + ") 0) (>= (s_cap " + v.Tm + ") (s_len " + v.Tm + ")) (>= (s_base " + v.Tm + ") 0) (=> (= (s_base " + v.Tm + ") 0) (= (s_cap " + v.Tm + ") 0)))")
+		st.assume("(and (>= (s_off " + v.Tm + ") 0) (>= (s_len " + v.Tm + ") 0) (>= (s_cap " + v.Tm + ") (s_len " + v.Tm + ")) (<= (s_cap " + v.Tm + ") 9223372036854775807) (>= (s_base " + v.Tm + ") 0) (=> (= (s_base " + v.Tm + ") 0) (= (s_cap " + v.Tm + ") 0)))")
 	case SInt:
 		if v.T != nil {
 			switch v.T.Underlying().(type) {
